@@ -138,10 +138,11 @@ Theorem ref_defined e body s x :
   resolve e (VDict [(K_Ref, body)]) = normalize (params e) x.
 Proof. intros H1 H2. rewrite resolve_ref, H1. simpl. rewrite H2. reflexivity. Qed.
 
+(* the map name exactly; the two keys by [lookup_bk] (exactly, else - for the texts "true" / "false" - by the first spelling) *)
 Definition mapping_leaf (e : env) (m k1 k2 : str) : option value :=
   match lookup m (mappings e) with
-  | Some (VDict top) => match lookup k1 top with
-                        | Some (VDict snd_) => match lookup k2 snd_ with Some VNull => None | x => x end
+  | Some (VDict top) => match lookup_bk k1 top with
+                        | Some (VDict snd_) => match lookup_bk k2 snd_ with Some VNull => None | x => x end
                         | _ => None
                         end
   | _ => None
@@ -157,9 +158,10 @@ Proof.
   intros Hwf. unfold do_find_in_map, mapping_leaf.
   destruct (lookup m (mappings e)) as [v|] eqn:E1; [|reflexivity].
   destruct (Hwf m v E1) as (top & -> & Htop).
-  destruct (lookup k1 top) as [w|] eqn:E2; [|reflexivity].
-  destruct (Htop k1 w E2) as (snd_ & ->).
-  destruct (lookup k2 snd_) as [leaf|] eqn:E3; [|reflexivity].
+  destruct (lookup_bk k1 top) as [w|] eqn:E2; [|reflexivity].
+  destruct (lookup_bk_lookup k1 top w E2) as (k1' & E2' & _).
+  destruct (Htop k1' w E2') as (snd_ & ->).
+  destruct (lookup_bk k2 snd_) as [leaf|] eqn:E3; [|reflexivity].
   destruct leaf; reflexivity.
 Qed.
 
